@@ -27,6 +27,9 @@ pub enum COp {
     TryInsert(u16),
     Remove(u16),
     RemoveEntry(u16),
+    /// `(&map).extend(..)` of `n` consecutive keys starting at index `from`, through an iterator with
+    /// an exact size hint (results are not observable: blind writes)
+    Extend(u16, u8),
     Compute(u16, Act),
     Retain(Pred),
     RetainForce(Pred),
@@ -101,6 +104,7 @@ impl Prog {
             for op in t {
                 match op {
                     COp::Get(k) | COp::GetKV(k) | COp::Contains(k) | COp::Insert(k) | COp::TryInsert(k) | COp::Remove(k) | COp::RemoveEntry(k) | COp::Compute(k, _) | COp::ComputePanic(k) => v.push(*k),
+                    COp::Extend(from, n) => v.extend((0..*n as u16).map(|j| from.wrapping_add(j) % 64)),
                     _ => {}
                 }
             }
@@ -569,6 +573,27 @@ fn run_thread(wk: &Wk<'_>, map: &FMap, cfg: &CCfg, ops: &[COp], hold: bool, log:
                 }
                 let _ = wk.op_end();
             }
+            COp::Extend(from, n) => {
+                let mut items = Vec::new();
+                let mut ids = Vec::new();
+                for j in 0..*n as u16 {
+                    let tag = hot_tag(from.wrapping_add(j) % 64);
+                    let v = V::new(4000 + tag as u64);
+                    log.recs.written.insert(v.id, (tag, v.payload));
+                    let k = K::new(tag);
+                    wk.user(crate::hb::U_INIT_V, v.id, 0);
+                    wk.user(crate::hb::U_INIT_K, k.inst, 0);
+                    ids.push((tag, v.id));
+                    items.push((k, v));
+                }
+                let inv = wk.op_start();
+                let mut target: &FMap = map;
+                target.extend(items);
+                let resp = wk.op_end();
+                for (tag, vid) in ids {
+                    log.recs.ops.push(HEnt { thread: me, inv, resp, key: tag, op: HOp::Put { new: vid } });
+                }
+            }
             COp::Clear => {
                 let inv = wk.op_start();
                 match g {
@@ -733,7 +758,16 @@ pub fn exec(pool: &Pool, prog: &Prog, spec: SchedSpec<'_>, opts: &ExecOpts, map_
                 ev.lock().unwrap().push(*e);
             }
             if rr {
-                if let Ev::Site { kind, a, thread, step, .. } = e {
+                if let Ev::Site { kind, a, b, thread, step } = e {
+                    if *kind == flurry::verif::EV_RETIRE && *b == 0 {
+                        // collector 0 = `Guard::unprotected()`: the object is freed on the spot,
+                        // whatever guards the other threads hold.  No operation of this harness
+                        // passes such a guard in, so the map created it itself
+                        let mut g = rf.lock().unwrap();
+                        if g.is_none() {
+                            *g = Some(format!("T{} at step {} retired {:#x} through an unprotected guard while the map is shared: it is freed immediately, under the guards of the other threads", thread, step, a));
+                        }
+                    }
                     if *kind == flurry::verif::EV_RETIRE {
                         let m = unsafe { &*(mp as *const FMap) };
                         let d = unsafe { m.verif_dump() };
@@ -1029,7 +1063,7 @@ fn quiescent_agreement(m: &FMap, prog: &Prog, fin: &BTreeMap<u32, (u32, u64, u64
 
 pub fn ccfg_strategy() -> impl Strategy<Value = CCfg> {
     (
-        prop_oneof![3 => Just(HMode::Identity), 2 => Just(HMode::Const0), 1 => Just(HMode::ConstMax), 2 => Just(HMode::SameBin), 1 => Just(HMode::High), 1 => Just(HMode::Mod4), 2 => Just(HMode::Mix), 1 => Just(HMode::PairBin), 1 => Just(HMode::FewHigh)],
+        prop_oneof![3 => Just(HMode::Identity), 2 => Just(HMode::Const0), 1 => Just(HMode::ConstMax), 2 => Just(HMode::SameBin), 1 => Just(HMode::High), 1 => Just(HMode::Mod4), 2 => Just(HMode::Mix), 1 => Just(HMode::PairBin), 1 => Just(HMode::FewHigh), 1 => Just(HMode::Shift4)],
         prop_oneof![2 => Just(0u32), 1 => Just(1u32), 2 => Just(20u32), 3 => Just(42u32), 1 => Just(85u32), 1 => 2u32..40],
         prop_oneof![3 => Just(1u32), 1 => Just(2u32), 1 => Just(8u32), 1 => Just(120u32)],
         prop_oneof![2 => Just(GuardMode::PerOp), 2 => Just(GuardMode::PerThread), 1 => Just(GuardMode::Pin)],
@@ -1138,6 +1172,7 @@ pub fn cop_strategy(mix: Mix, hot: u16) -> BoxedStrategy<COp> {
             1 => k.clone().prop_map(COp::Get),
             1 => (1u16..80).prop_map(COp::Reserve),
             1 => (k.clone(), act).prop_map(|(k, a)| COp::Compute(k, a)),
+            1 => (prop_oneof![0u16..4, 16u16..40], prop_oneof![Just(0u8), 1u8..8, 8u8..30]).prop_map(|(f, n)| COp::Extend(f, n)),
         ]
         .boxed(),
         Mix::Long => (16u16..200).prop_map(COp::Insert).boxed(),
@@ -1225,6 +1260,10 @@ pub fn cop_strategy(mix: Mix, hot: u16) -> BoxedStrategy<COp> {
             1 => iter_kind().prop_map(COp::IterAll),
             1 => Just(COp::Clear),
             1 => Just(COp::Len),
+            2 => (prop_oneof![0u16..4, 16u16..40], prop_oneof![Just(0u8), Just(1u8), 2u8..8, 8u8..30]).prop_map(|(f, n)| COp::Extend(f, n)),
+            1 => (0u16..3).prop_map(|t| COp::RetainForce(Pred::KeyLess(t * 1024 + 1))),
+            1 => (2u8..4, 0u8..3).prop_map(|(m, r)| COp::RetainForce(Pred::KeyMod(m, r))),
+            1 => (2u8..4, 0u8..3).prop_map(|(m, r)| COp::Retain(Pred::KeyMod(m, r))),
         ]
         .boxed(),
         Mix::Crowd => prop_oneof![
@@ -1242,6 +1281,7 @@ pub fn cop_strategy(mix: Mix, hot: u16) -> BoxedStrategy<COp> {
             3 => iter_kind().prop_map(COp::IterAll),
             1 => Just(COp::Clear),
             1 => Just(COp::Len),
+            1 => (prop_oneof![0u16..4, 16u16..40], prop_oneof![Just(0u8), 1u8..8, 8u8..30]).prop_map(|(f, n)| COp::Extend(f, n)),
         ]
         .boxed(),
     }
@@ -1411,7 +1451,7 @@ fn crowd_prog_strategy() -> BoxedStrategy<Prog> {
 /// an unallocated map (capacity 0, nothing inserted) and 2-4 threads whose very first operations
 /// race; some threads go on to fill the table past its first thresholds
 fn firstops_prog_strategy(max_threads: usize) -> BoxedStrategy<Prog> {
-    let hm = prop_oneof![4 => Just(HMode::Identity), 2 => Just(HMode::Mix), 1 => Just(HMode::SameBin), 1 => Just(HMode::Const0)];
+    let hm = prop_oneof![4 => Just(HMode::Identity), 2 => Just(HMode::Mix), 1 => Just(HMode::SameBin), 1 => Just(HMode::Const0), 3 => Just(HMode::Shift4)];
     let thread = prop_oneof![
         4 => proptest::collection::vec(cop_strategy(Mix::FirstOps, 0), 1..3),
         // a thread that fills the default table past its threshold (12) after its first operation
@@ -1446,7 +1486,7 @@ pub fn prog_strategy(mix: Mix, max_threads: usize, max_ops: usize) -> BoxedStrat
         return long_prog_strategy(max_threads, max_ops);
     }
     if mix == Mix::LongMixed || mix == Mix::LongReaders {
-        let hm = prop_oneof![3 => Just(HMode::Identity), 2 => Just(HMode::Mix), 2 => Just(HMode::SameBin), 1 => Just(HMode::Const0), 1 => Just(HMode::Mod4)];
+        let hm = prop_oneof![3 => Just(HMode::Identity), 2 => Just(HMode::Mix), 2 => Just(HMode::SameBin), 1 => Just(HMode::Const0), 1 => Just(HMode::Mod4), 2 => Just(HMode::Shift4)];
         let mo = max_ops.max(6);
         return (hm, prop_oneof![Just(0u32), Just(1u32), Just(5u32), Just(20u32), Just(43u32)], prop_oneof![Just(1u32), Just(2u32), Just(8u32)], prop_oneof![Just(GuardMode::PerOp), Just(GuardMode::PerThread), Just(GuardMode::Pin)], 0u16..14, proptest::collection::vec(0u16..10, 0..9))
             .prop_flat_map(move |(hmode, capacity, batch, gmode, filler, hot)| {
